@@ -1,9 +1,16 @@
 ---------------------------- MODULE MC_Numscript ----------------------------
 (***************************************************************************)
-(* Case enumeration for Numscript.tla (Flow A).  One model value `c` per   *)
-(* case; the invariants are the theorems of C22/C23 evaluated on the       *)
-(* outcome Run prescribes, and `Emit` prints the case with that outcome.   *)
-(* Family / Tier / N / Seed are set by the .cfg (or generated cfg).        *)
+(* Case enumeration for Numscript.tla (Flow A).  One state `c` per case    *)
+(* (all cases are initial states, Next stutters); the invariant            *)
+(* CheckAndEmit evaluates every theorem of C22/C23 on the outcome Run      *)
+(* prescribes and prints the case with that outcome as a CASE line.        *)
+(*   Family: E1 sources x one destination, E2 send [A *], E3 destinations, *)
+(*           E4 allotment sources, E5 several statements / two assets /    *)
+(*           metadata / save / balance(), X programs the compiler must     *)
+(*           reject, A allotments through scripts (C24),                   *)
+(*           R seeded random programs over the larger space (-seed).       *)
+(*   Tier:   "quick" | "thorough" (larger alphabets, depth 3)              *)
+(*   N:      number of random programs (Family = "R")                      *)
 (***************************************************************************)
 EXTENDS Numscript, Json
 
@@ -119,7 +126,8 @@ Menu ==
       Send(A2, AllAmt, SAcct("a", NoOD), DAcct(World)),
       SendBal(A1, "a", SSeq(<<SAcct("a", NoOD), SAcct("b", NoOD)>>), DAcct("c")),
       SendBal(A1, "b", SWorld, DAcct("b")),
-      Send(A1, 5, SAllot(<<P(1, 2), P(1, 2)>>, <<SAcct("a", NoOD), SAcct("a", 2)>>), DAcct("b")) }
+      Send(A1, 5, SAllot(<<P(1, 2), P(1, 2)>>, <<SAcct("a", NoOD), SAcct("a", 2)>>), DAcct("b")),
+      Save(A1, 1, "a"), Save(A1, AllAmt, "a"), Save(A1, 3, "a"), Save(A1, 1, "b") }
 MetaMenu ==
     { TxMeta("k1", VStr("hello")), TxMeta("k1", VNum(42)), TxMeta("k2", VMon(A1, 7)), TxMeta("k2", VPort(2, 4)),
       TxMeta("k3", VAcct("a")), TxMeta("k3", VAsset(A2)),
@@ -215,6 +223,7 @@ RStmt(d, allowBal) ==
     IN CASE kind = 1 -> TxMeta(Pick({"k1", "k2"}), RVal(d))
          [] kind = 2 -> AcctMeta(Pick({"a", "b"}), Pick({"m1", "m2"}), RVal(d))
          [] kind = 3 -> Send(as, AllAmt, RSrc(d), RDst(d))
+         [] kind = 5 -> Save(as, PickW(<<AllAmt, 0, 1, 2, 4>>), RAcct(d))
          [] kind = 4 /\ allowBal -> SendBal(as, RAcct(d), RTopSrc(d), RDst(d))
          [] OTHER   -> Send(as, Pick(0..6), RTopSrc(d), RDst(d))
 
